@@ -948,3 +948,28 @@ def flush_completion(f):
     if len(cands) != 1:
         raise AnchorLost("Connection::complete_flush", "found %d candidates for the flush-completion bookkeeping" % len(cands))
     return cands[0]
+
+
+def clause_negotiated_per_connection(R, prefix, fields):
+    """Values negotiated by a CONNACK hold for that connection only: on every path of the handshake that ends in success
+    each of `fields` (RuntimeState) is stored by the handshake itself -- unconditionally, not only in the arm of the
+    property loop that sees the property.  A field that is only overwritten when the CONNACK mentions it keeps the value
+    negotiated on an earlier connection whenever the new CONNACK is silent about it (silence means the protocol default)."""
+    f = R.f
+    call, hb, hcode = handshake(f)
+    R.touch(hcode)
+    oks = []
+    for bb, j, s in hcode.assigns():
+        rv = s["rv"]
+        if bb in hcode.reachable and s["dst"]["l"] == 0 and not s["dst"]["proj"] and "agg" in rv \
+                and rv["agg"].get("variant") == "Ok":
+            oks.append(bb)
+    if not oks:
+        raise AnchorLost("handshake-success", "the handshake builds no Ok(..) result")
+    for field in fields:
+        blocks = sorted(set(bb for (b, bb, j, dst, rv, s, final) in f.field_stores(RUNTIME, field) if b.name == hcode.name and final))
+        ok = bool(blocks) and hcode.must_pass([0], oks, via_blocks=blocks)[0]
+        R.ob("%s/per-connection/%s" % (prefix, field), ok,
+             "every successful handshake stores RuntimeState::%s itself (CONNACK value or the protocol default): a value "
+             "negotiated on an earlier connection must not survive a CONNACK that is silent about it" % field,
+             where=hcode.line(blocks[0]) if blocks else hb.span)
